@@ -357,7 +357,7 @@ func c20EndToEnd(c *Ctx, im *Impl) {
 	defer os.RemoveAll(tmp)
 	osw := &certificates.OsWrapper{}
 	caCrt, caKey := filepath.Join(tmp, "ca.crt"), filepath.Join(tmp, "ca.key")
-	Must(certificates.InitCA(&certificates.CertOptions{CommonName: "verif CA", Bits: 2048}, caCrt, caKey, osw))
+	Must(certificates.InitCAConfig{CommonName: "verif CA", Bits: 2048, OutCert: caCrt, OutKey: caKey}.Run())
 	caCert, err := certificates.LoadCertificate(caCrt, osw)
 	Must(err)
 	pool := x509.NewCertPool()
@@ -421,7 +421,22 @@ func c20EndToEnd(c *Ctx, im *Impl) {
 		im.Hist(fmt.Sprintf("e2e:window=%d", window))
 		opts := &certificates.CertOptions{CommonName: "cn", CertNames: certificates.CertNames{DNSNames: dns, NodeIDs: ids, IPAddresses: ips}}
 		reqFile, crtFile := filepath.Join(tmp, "r.req"), filepath.Join(tmp, "r.crt")
-		if genKey {
+		viaCLI := i%2 == 0 // through the command-line layer (cert-makereq / cert-signreq Run methods)
+		rec["via_cli_layer"] = viaCLI
+		if viaCLI {
+			mr := certificates.MakeReqConfig{CommonName: "cn", DNSName: dns, NodeID: ids, OutReq: reqFile}
+			for _, ip := range ips {
+				mr.IPAddress = append(mr.IPAddress, ip.String())
+			}
+			if genKey {
+				mr.Bits, mr.OutKey = 2048, filepath.Join(tmp, "gen.key")
+			} else {
+				mr.InKey = keyFile
+			}
+			if err = mr.Prepare(); err == nil {
+				err = mr.Run()
+			}
+		} else if genKey {
 			opts.Bits = 2048
 			err = certificates.MakeReq(opts, "", filepath.Join(tmp, "gen.key"), reqFile, osw)
 		} else {
@@ -441,7 +456,16 @@ func c20EndToEnd(c *Ctx, im *Impl) {
 		case 3:
 			sopts.NotBefore, sopts.NotAfter = now.Add(24*time.Hour), now.Add(48*time.Hour)
 		}
-		if err = certificates.SignReq(sopts, caCrt, caKey, reqFile, crtFile, true, osw); err != nil {
+		if viaCLI {
+			sr := certificates.SignReqConfig{Req: reqFile, CACert: caCrt, CAKey: caKey, OutCert: crtFile, Verify: true}
+			if window >= 1 {
+				sr.NotBefore, sr.NotAfter = sopts.NotBefore.Format(time.RFC3339), sopts.NotAfter.Format(time.RFC3339)
+			}
+			err = sr.Run()
+		} else {
+			err = certificates.SignReq(sopts, caCrt, caKey, reqFile, crtFile, true, osw)
+		}
+		if err != nil {
 			sig := "e2e-signreq"
 			if maxLen(ids) >= 113 {
 				sig = "e2e-signreq-id>=113"
